@@ -219,8 +219,9 @@ RULE = ("explicit-state BFS over histories of clean_content([line..]) events on 
         "distinct depth-1 state), deeper states are de-duplicated and COUNTED PER UNIT (the same deeper state "
         "reached from two different depth-1 states is counted and expanded in both). evaluations = "
         "transitions = distinct (state, event) executions of the real clean_content; a branch is continued past a violation "
-        "only when every violation of the event carries the structural trigger of a known defect family (the involved "
-        "originals are then forgotten by the oracle), otherwise it is cut. On top of the BFS: 6 long counter runs and the "
+        "only when every violation of the event carries the structural trigger of a known defect family, at most once "
+        "per history and only at its first or second event (the involved originals are then forgotten by the oracle), "
+        "otherwise it is cut. On top of the BFS: 6 long counter runs and the "
         "explicit 'shapes' histories (delimiter adjacency, glue, the five entry channels, no_obfuscate specs, 11 keywords, a "
         "second Cleaner, blank lines), each executed once through the replay entry point. A transition / case is "
         "non-trivial when at least one occurrence in the event is a recurrence of an original already "
@@ -729,8 +730,8 @@ def trigger_features(event, involved, obs_before, maps_after):
 
 def forgive(new_obs, viols, feats):
     """Histories are continued PAST a violation when every violation of the event carries the structural trigger of
-    a known defect family: the originals involved are forgotten (they stay 'occurred', nothing is remembered about
-    their substitute), everything else is kept. -> the memory to continue with, or None = cut the branch.
+    a known defect family - at most MAX_FORGIVEN times per history and only within its first FORGIVE_WITHIN events: the originals involved are forgotten (they stay
+    'occurred', nothing is remembered about their substitute), everything else is kept. -> the memory to continue with, or None = cut the branch.
     States that are only reachable through a trigger are thereby explored; any after-effect of the defect on other
     originals, or a second inconsistency of the forgotten ones later on, is still reported."""
     if not viols or any(f["trigger"] == "none" for f in feats):
@@ -763,18 +764,27 @@ def step(cl, obs, event):
     return v, new, info, maps
 
 
-def advance(cl, obs, event, with_reports):
+MAX_FORGIVEN = 1      # a history is continued past at most one known-trigger event,
+FORGIVE_WITHIN = 2    # and only when that event is its first or second one (measured: unrestricted continuation
+                      # doubles the thorough tier to 9,500 CPU-s; a trigger at the last depth is a leaf anyway)
+
+
+def may_forgive(forgiven_so_far, event_index):
+    return forgiven_so_far < MAX_FORGIVEN and event_index < FORGIVE_WITHIN
+
+
+def advance(cl, obs, event, with_reports, may_forgive=True):
     """One event with the oracle and the continuation rule; with_reports adds clause (5) on the memory the history
     continues with. -> (violations, features, obs to continue with or None = cut, info, maps)"""
     v, new, info, maps = step(cl, obs, event)
     feats = [trigger_features(event, inv, obs, maps) for _c, _e, _g, inv in v]
-    cont = forgive(new, v, feats) if v else new
+    cont = (forgive(new, v, feats) if may_forgive else None) if v else new
     if with_reports and cont is not None:
         v2 = check_reports(cl, cl.report_dir, cont)
         if v2:
             v = v + v2
             feats = feats + [trigger_features(event, inv, obs, maps) for _c, _e, _g, inv in v2]
-            cont = forgive(cont, v, feats)
+            cont = forgive(cont, v, feats) if may_forgive else None
     return v, feats, cont, info, maps
 
 
@@ -804,7 +814,8 @@ def run_history(case):
             if norm_event(event)["new_cleaner"]:
                 cl = new_cleaner(d, kws)
                 obs = {}
-            v, feats, cont, info, _maps = advance(cl, obs, event, True)
+                stats["forgiven_events"] = 0
+            v, feats, cont, info, _maps = advance(cl, obs, event, True, may_forgive(stats["forgiven_events"], i))
             stats["recurrences"] += info["recurrences"]
             if v and (cont is None or i == len(hist) - 1):
                 out = []
@@ -1019,10 +1030,10 @@ def depth1(fam, tier):
         init = snaps.take(new_cleaner(d), [])
         for i, ev in enumerate(evs):
             cl = snaps.give(init)
-            _v, _feats, cont, _info, maps = advance(cl, {}, ev, True)
+            v, _feats, cont, _info, maps = advance(cl, {}, ev, True)
             if cont is None:                    # cut: reported by the depth1 unit
                 continue
-            key = canon(maps, cont)
+            key = (canon(maps, cont), 1 if v else 0)
             if key not in keys:
                 keys[key] = i
                 reps.append(i)
@@ -1136,10 +1147,10 @@ def run_unit(unit, tier):
                 res.violation(clause, case, exp, got, f)
                 res.outcomes.add("viol:%s:%s" % (clause, f.get("trigger")))
 
-        def transition(hist, snap, obs, event):
-            """-> (key, live Cleaner, obs, maps) of the successor, or None when the branch is cut."""
+        def transition(hist, snap, obs, nforg, event):
+            """-> (key, live Cleaner, obs, maps, forgiven so far) of the successor, or None when the branch is cut."""
             cl = snaps.give(snap)
-            v, feats, cont, info, maps = advance(cl, obs, event, False)
+            v, feats, cont, info, maps = advance(cl, obs, event, False, may_forgive(nforg, len(hist)))
             res.evals += 1
             res.transitions += 1
             res.traces += 1            # one more distinct history whose last step ran against the real code
@@ -1157,7 +1168,8 @@ def run_unit(unit, tier):
                 if cont is None:
                     return None
                 res.stat("transitions_continued_past_known_trigger")
-            return canon(maps, cont), cl, cont, maps
+                nforg += 1
+            return (canon(maps, cont), nforg), cl, cont, maps, nforg
 
         def admit(hist, event, cl, obs, before, maps):
             """A newly discovered state (cl is the live Cleaner in exactly that state): clause (5) on the real
@@ -1185,10 +1197,10 @@ def run_unit(unit, tier):
             for ev in evs:
                 if skipped(fam, {}, ev):
                     continue
-                t = transition([], init, {}, ev)
+                t = transition([], init, {}, 0, ev)
                 if t is None:
                     continue
-                key, cl2, obs2, maps2 = t
+                key, cl2, obs2, maps2, _n2 = t
                 if key in seen:
                     continue
                 if admit([], ev, cl2, obs2, {}, maps2) is not None:
@@ -1202,26 +1214,27 @@ def run_unit(unit, tier):
         # subtree below one distinct depth-1 state
         first = unit["first"]
         cl1 = snaps.give(init)
-        _v, _feats, obs1, _info, maps1 = advance(cl1, {}, first, True)
+        v1, _feats, obs1, _info, maps1 = advance(cl1, {}, first, True)
         if obs1 is None:
             raise RuntimeError("first event of a subtree unit is cut: %r" % (first,))
+        n1 = 1 if v1 else 0
         s1 = snaps.take(cl1, [first])
         _reps, keys1 = depth1(fam, tier)
-        if canon(maps1, obs1) not in keys1:
+        if (canon(maps1, obs1), n1) not in keys1:
             raise RuntimeError("depth-1 state of %r not in the global depth-1 table" % (first,))
         seen = set(keys1)          # every depth-1 state is expanded by its own unit
-        frontier = [([first], s1, obs1)]
+        frontier = [([first], s1, obs1, n1)]
         depth = 1
         while frontier and depth < depth_bound:
             nxt = []
-            for hist, snap, obs in frontier:
+            for hist, snap, obs, nforg in frontier:
                 for ev in evs:
                     if skipped(fam, obs, ev):
                         continue
-                    t = transition(hist, snap, obs, ev)
+                    t = transition(hist, snap, obs, nforg, ev)
                     if t is None:
                         continue
-                    key, cl2, obs2, maps2 = t
+                    key, cl2, obs2, maps2, n2 = t
                     if key in seen:
                         continue
                     s2 = admit(hist, ev, cl2, obs2, obs, maps2)
@@ -1229,7 +1242,7 @@ def run_unit(unit, tier):
                         seen.add(key)
                         res.states += 1
                         res.maxi("max_originals_in_a_state", len(obs2))
-                        nxt.append((hist + [ev], s2, obs2))
+                        nxt.append((hist + [ev], s2, obs2, n2))
             frontier = nxt
             depth += 1
         res.maxi("depth_completed_" + fam, depth)
